@@ -109,6 +109,16 @@ func (e *qexec) blockedInSelect(w *qworker, states map[int64]string) bool {
 	return strings.HasPrefix(st, "select")
 }
 
+// blockedOnLock: the worker waits for a mutex. None of the hooked windows lies inside the queue's
+// critical sections, so when every other worker is at a stop nobody is going to release it.
+func (e *qexec) blockedOnLock(w *qworker, states map[int64]string) bool {
+	if w.status.Load() != stRunning {
+		return false
+	}
+	st := states[w.gid.Load()]
+	return strings.HasPrefix(st, "sync.Mutex.Lock") || strings.HasPrefix(st, "semacquire") || strings.HasPrefix(st, "sync.RWMutex")
+}
+
 // quiesce waits until every worker is at a stop: idle, at a gate, done, or blocked in a select.
 func (e *qexec) quiesce() bool {
 	stable := 0
@@ -130,7 +140,7 @@ func (e *qexec) quiesce() bool {
 			switch w.status.Load() {
 			case stIdle, stGate, stDone:
 			default:
-				if !e.blockedInSelect(w, states) {
+				if !e.blockedInSelect(w, states) && !e.blockedOnLock(w, states) {
 					all = false
 				}
 			}
@@ -342,6 +352,13 @@ func qModel() porcupine.Model {
 	}
 }
 
+func tryLen(q *gohlslib.VerifSegmentQueue) int {
+	if n, ok := q.TryLen(); ok {
+		return n
+	}
+	return -1
+}
+
 // checkQExec applies the oracles to a finished execution.
 func checkQExec(e *qexec, completed bool) []string {
 	var out []string
@@ -351,9 +368,19 @@ func checkQExec(e *qexec, completed bool) []string {
 		return out
 	}
 	states := goroutineStates()
-	qlen := e.q.Len()
+	// (the length is read without waiting for the queue's mutex: it may have been left held)
+	qlen, lenOK := e.q.TryLen()
+	for i := 0; i < 200 && !lenOK; i++ {
+		time.Sleep(50 * time.Microsecond)
+		qlen, lenOK = e.q.TryLen()
+	}
 	for _, w := range e.ws {
 		if w.status.Load() != stRunning {
+			continue
+		}
+		if e.blockedOnLock(w, states) {
+			op := w.ops[w.curOp.Load()]
+			add("mutex-leaked/"+op.Kind, "schedule %v: %s is blocked on the queue's mutex in %s while every other operation has returned or is parked outside the critical sections: an earlier operation returned with the mutex held", e.trace, w.name, op.Kind)
 			continue
 		}
 		if !e.blockedInSelect(w, states) {
@@ -361,6 +388,8 @@ func checkQExec(e *qexec, completed bool) []string {
 		}
 		op := w.ops[w.curOp.Load()]
 		switch {
+		case !lenOK:
+			add("mutex-leaked/"+op.Kind, "schedule %v: every operation has returned or is parked, yet the queue's mutex is held", e.trace)
 		case e.canceled:
 			add("cancel-ignored/"+op.Kind, "schedule %v: %s is still blocked in %s although the context was cancelled", e.trace, w.name, op.Kind)
 		case op.Kind == "pull" && qlen > 0:
@@ -590,7 +619,7 @@ func checkC20(tier string, seed int64) int {
 		case <-done:
 		case <-time.After(10 * time.Second):
 			lost.Add(1)
-			rep.Report("C20/stress-deadlock", fmt.Sprintf("stress round %d: producer and consumer stopped making progress (queue length %d, %d of %d delivered)", r, q.Len(), len(got), n), map[string]any{"property": "C20", "stress_round": r})
+			rep.Report("C20/stress-deadlock", fmt.Sprintf("stress round %d: producer and consumer stopped making progress (queue length %d, %d of %d delivered)", r, tryLen(q), len(got), n), map[string]any{"property": "C20", "stress_round": r})
 		}
 		cancel()
 		<-done
